@@ -36,6 +36,9 @@ pub enum TapeSpec {
     Periodic { period: u32, seed: u64 },
     /// `base`, except that bytes in [start, start+len) come from another random stream
     Perturb { base: Box<TapeSpec>, start: u64, len: u64, seed: u64 },
+    /// `base`, except that every byte in [start, start+len) is `byte` (extreme source output, e.g. 0xff: a
+    /// candidate above the group order for rejection-sampling fields)
+    Force { base: Box<TapeSpec>, start: u64, len: u64, byte: u8 },
 }
 
 impl TapeSpec {
@@ -54,7 +57,17 @@ impl TapeSpec {
                     base.byte(i)
                 }
             }
+            TapeSpec::Force { base, start, len, byte } => {
+                if i >= *start && i < start + len {
+                    *byte
+                } else {
+                    base.byte(i)
+                }
+            }
         }
+    }
+    pub fn force(&self, start: u64, len: u64, byte: u8) -> TapeSpec {
+        TapeSpec::Force { base: Box::new(self.clone()), start, len, byte }
     }
     pub fn perturb(&self, start: u64, len: u64, seed: u64) -> TapeSpec {
         TapeSpec::Perturb { base: Box::new(self.clone()), start, len, seed }
